@@ -115,6 +115,7 @@ func runC11(cfg hx.Config, ch *simrt.Chooser, cs *charset, text []rune, paste bo
 		return nil, err
 	}
 	cp := capsOf(w.Ti)
+	w.S.Note(hx.Fingerprint(cfg, cs.Name, text, paste, focus, cuts))
 	var in []byte
 	var want []string
 	if focus == 1 {
